@@ -5,7 +5,7 @@
 Static analysis only: /repo is parsed, never imported or executed.
 Exit 0: every obligation holds (or is a listed known finding)
 Exit 1: VIOLATION property=<id> replay=<path>
-Exit 2: ANALYSIS-ERROR (missing anchor, unparsable module, floor not met, internal error)
+Exit 2: ANALYSIS-ERROR (missing anchor, unparsable module, floor not met, internal error) and no violation established before that point
 """
 from __future__ import annotations
 
@@ -33,7 +33,14 @@ def run_property(prop, repo='/repo', tier='quick', seed=0, quiet=False, filemap=
     ctx.only_rule = only_rule
     ctx.skip_selftest = not selftest
     mod = importlib.import_module(f'sa.rules.{prop.lower()}')
-    mod.run(ctx)
+    try:
+        mod.run(ctx)
+    except AnalysisError as e:
+        # A violation that was already established stays a violation; the rest of the analysis is reported as incomplete.
+        # Without an established violation the run is an analysis error (exit 2), never a pass.
+        if not ctx.failures:
+            raise
+        ctx.incomplete = str(e)
     return ctx, mod
 
 
@@ -92,6 +99,8 @@ def main(argv=None):
     for o in ctx.knowns:
         print(f'KNOWN-FINDING: property={prop} {o.rule} {o.site} {o.what}')
     if ctx.failures:
+        if getattr(ctx, 'incomplete', None):
+            print(f'ANALYSIS-INCOMPLETE property={prop} (violations below were established before the analysis gave up) {ctx.incomplete}')
         done = set()
         for o in ctx.failures:
             if o.key in done:
